@@ -13,6 +13,10 @@ def run(tier):
     for lens in LENSES[tier]:
         rp.run_lens(lens, limit=15000 if (tier == "quick" and lens == "binder_integ") else None)
     out.add_replay(rp, "termmachine")
+    # the MarkovProduct binder (time and step variables): capture probes on the problems of Markov.tla
+    rm = replay.Replay("harness.modes:c05markov")
+    rm.run_lens("Markov", cfg="Markov_addmul_q")
+    out.add_replay(rm, "markov")
     out.coverage = check.replay_coverage(
         rp, "every nesting of binder constructors of the lens with all name coincidences over {a,b,c}, "
             "built under reflect/lazy/normalize/eager and reinterpreted: no bound name among inputs, values equal Den")
